@@ -12,7 +12,7 @@ CONSTANT Strict
 Rec == ndJsonDeserialize(IOEnv.TRACE)
 
 VARIABLES l, cur, seen
-tvars == <<l, cur, seen, body, depth, cfg, phase, sched, k, alg, pc, live>>
+tvars == <<l, cur, seen, body, depth, cfg, phase, sched, k, alg, pc, live, opens, last>>
 
 Body(r) == [i \in 1..Len(r.b) |-> [k |-> r.b[i].k, n |-> r.b[i].n]]
 Cfg(r) == [consts |-> [i \in 1..Len(r.consts) |-> r.consts[i].n],
@@ -20,10 +20,10 @@ Cfg(r) == [consts |-> [i \in 1..Len(r.consts) |-> r.consts[i].n],
 
 TInit == /\ l = 1 /\ cur = [off |-> 0, plines |-> <<>>, clines |-> <<>>] /\ seen = {}
          /\ body = <<>> /\ depth = 0 /\ cfg = [consts |-> <<>>, params |-> <<>>] /\ phase = "idle"
-         /\ sched = <<>> /\ k = 0 /\ alg = AInit /\ pc = 0 /\ live = {}
+         /\ sched = <<>> /\ k = 0 /\ alg = AInit /\ pc = 0 /\ live = {} /\ opens = <<>> /\ last = "none"
 
 Ev(e) == l <= Len(Rec) /\ Rec[l].ev = e
-Frozen == UNCHANGED <<depth, pc, live>>
+Frozen == UNCHANGED <<depth, pc, live, opens, last>>
 
 TInput == /\ Ev("input") /\ phase = "idle"
           /\ body' = Body(Rec[l]) /\ cfg' = Cfg(Rec[l])
@@ -34,20 +34,21 @@ TInput == /\ Ev("input") /\ phase = "idle"
           /\ phase' = "scan" /\ l' = l + 1 /\ Frozen
 
 \* declaration id of a source line
+\* (constants may stand after the functions: their lines are looked up first)
 IdOfLine(line) ==
-    IF line > cur.off THEN line - cur.off
-    ELSE IF line = cur.off THEN 0
+    IF \E i \in 1..Len(cur.clines) : cur.clines[i] = line
+         THEN ConstId(CHOOSE i \in 1..Len(cur.clines) : cur.clines[i] = line)
     ELSE IF \E i \in 1..Len(cur.plines) : cur.plines[i] = line
          THEN ParamId(CHOOSE i \in 1..Len(cur.plines) : cur.plines[i] = line)
-    ELSE IF \E i \in 1..Len(cur.clines) : cur.clines[i] = line
-         THEN ConstId(CHOOSE i \in 1..Len(cur.clines) : cur.clines[i] = line)
+    ELSE IF line > cur.off THEN line - cur.off
+    ELSE IF line = cur.off THEN 0
     ELSE 0 - 98
 IdsOfLines(ls) == { IdOfLine(ls[i]) : i \in 1..Len(ls) }
 
 (* ---- the algorithm model in lock step (Strict) ---- *)
 Silent(a, step) ==
-    \/ step[1] = "goto" /\ BadGoto(body, step[2])
-    \/ step[1] = "label" /\ (\/ \E q \in 1..Len(body) : ClashPair(body, step[2], q)
+    \/ step[1] = "goto" /\ MBadGoto(body, step[2])
+    \/ step[1] = "label" /\ (\/ \E q \in 1..Len(body) : MClashPair(body, step[2], q)
                               \/ a.unres[step[2]] = None)
 RECURSIVE Skip(_, _)
 Skip(a, kk) == IF kk <= Len(sched) /\ Silent(a, sched[kk])
@@ -84,8 +85,9 @@ TVDecl == /\ Ev("vdecl") /\ phase = "scan"
           /\ LET d == IdOfLine(Rec[l].line) IN
              /\ d # 0 - 98 /\ d \notin seen
              /\ NameOf(body, cfg, d) = Rec[l].name
-             /\ d >= 1 => IsV(body, d)
-             /\ Rec[l].dup = (IF d >= 1 THEN d \in R422(body, cfg)            \* R
+             \* a declaration of the body, or the `var x` of a later function (item "F")
+             /\ d >= 1 => (IsV(body, d) \/ IsF(body, d))
+             /\ Rec[l].dup = (IF d >= 1 THEN d \in MR422(body, cfg)           \* R
                               ELSE IF d = 0 THEN FALSE
                               ELSE (0 - d) \in R424(cfg))
              /\ Lock({"decl", "pdecl"}, d, LAMBDA a, b : Rec[l].depth = Len(b.st))
@@ -93,19 +95,21 @@ TVDecl == /\ Ev("vdecl") /\ phase = "scan"
           /\ Common
 
 TUse == /\ Ev("vuse") /\ phase = "scan"
-        /\ IF Rec[l].name = "x"
-           THEN \* the harness variable: always declared, never skipped
-                /\ Rec[l].res = "ok" /\ IdOfLine(Rec[l].decl) = 0
+        /\ IF Rec[l].name = "x" /\ ~(LET q == Rec[l].line - cur.off IN
+                                      q \in 1..Len(body) /\ IsU(body, q) /\ body[q].n = "x")
+           THEN \* the harness variable (in a condition, as the value of `n = x;`): always declared, never
+                \* skipped; it is the `var x` of the function the line lies in
+                /\ Rec[l].res = "ok" /\ IdOfLine(Rec[l].decl) = FOf(body, Rec[l].line - cur.off)
                 /\ UNCHANGED <<seen, alg, k>>
            ELSE LET p == Rec[l].line - cur.off IN
                 /\ p \in 1..Len(body) /\ IsU(body, p) /\ (100 + p) \notin seen
                 /\ body[p].n = Rec[l].name
-                /\ (Rec[l].res = "undefined") = (p \in R402(body, cfg))                    \* R
-                /\ (Rec[l].res # "undefined" /\ NoDup(body, cfg)) =>
-                       DeclsFor(body, cfg, p) = {IdOfLine(Rec[l].decl)}
-                /\ (LabelOK(body) /\ NoDup(body, cfg)) =>
-                       /\ (Rec[l].res \in {"skipped", "poisoned"}) = (p \in BadUses(body, cfg))
-                       /\ (p \in R482first(body, cfg)) => Rec[l].res = "skipped"
+                /\ (Rec[l].res = "undefined") = (p \in MR402(body, cfg))                   \* R
+                /\ (Rec[l].res # "undefined" /\ MNoDup(body, cfg)) =>
+                       MDeclsFor(body, cfg, p) = {IdOfLine(Rec[l].decl)}
+                /\ (MLabelOK(body) /\ MNoDup(body, cfg)) =>
+                       /\ (Rec[l].res \in {"skipped", "poisoned"}) = (p \in MBadUses(body, cfg))
+                       /\ (p \in MR482first(body, cfg)) => Rec[l].res = "skipped"
                 /\ Lock({"use"}, p, LAMBDA a, b :
                            (Rec[l].res = "skipped") = (p \in b.e482 /\ p \notin a.e482))
                 /\ seen' = seen \cup {100 + p}
@@ -113,7 +117,7 @@ TUse == /\ Ev("vuse") /\ phase = "scan"
 
 TGoto == /\ Ev("vgoto") /\ phase = "scan"
          /\ LET p == Rec[l].line - cur.off IN
-            /\ p \in 1..Len(body) /\ IsG(body, p) /\ ~BadGoto(body, p)
+            /\ p \in 1..Len(body) /\ IsG(body, p) /\ ~MBadGoto(body, p)
             /\ body[p].n = Rec[l].label
             /\ Lock({"goto"}, p, LAMBDA a, b : IdsOfLines(Rec[l].inscope) = InScope(a.st))
          /\ UNCHANGED seen /\ Common
@@ -132,16 +136,16 @@ TOutcome ==
     /\ Ev("outcome") /\ phase = "scan"
     /\ Strict => Skip(alg, k).k > Len(sched)
     \* every declaration and every use was visited exactly once
-    /\ seen = { d \in 1..Len(body) : IsV(body, d) } \cup {0} \cup ParamIds(cfg) \cup ConstIds(cfg)
+    /\ seen = { d \in 1..Len(body) : IsV(body, d) \/ IsF(body, d) } \cup {0} \cup ParamIds(cfg) \cup ConstIds(cfg)
                 \cup { 100 + u : u \in { v \in 1..Len(body) : IsU(body, v) } }
-    /\ DiagPos(402) = R402(body, cfg)
-    /\ DiagPos(422) = R422(body, cfg)
+    /\ DiagPos(402) = MR402(body, cfg)
+    /\ DiagPos(422) = MR422(body, cfg)
     /\ { IdOfLine(line) : line \in DiagLines(424) } = { ParamId(i) : i \in R424(cfg) }
-    /\ (LabelOK(body) /\ NoDup(body, cfg)) =>
-           /\ R482first(body, cfg) \subseteq DiagPos(482)
-           /\ DiagPos(482) \subseteq BadUses(body, cfg)
-    /\ RuleAcceptsVars(body, cfg) => Rec[l].ok
-    /\ (LabelOK(body) /\ ~RuleAcceptsVars(body, cfg)) => ~Rec[l].ok
+    /\ (MLabelOK(body) /\ MNoDup(body, cfg)) =>
+           /\ MR482first(body, cfg) \subseteq DiagPos(482)
+           /\ DiagPos(482) \subseteq MBadUses(body, cfg)
+    /\ MRuleAcceptsVars(body, cfg) => Rec[l].ok
+    /\ (MLabelOK(body) /\ ~MRuleAcceptsVars(body, cfg)) => ~Rec[l].ok
     /\ phase' = "idle" /\ l' = l + 1
     /\ UNCHANGED <<cur, seen, body, cfg, sched, k, alg>> /\ Frozen
 
